@@ -626,6 +626,11 @@ def _layout(R, x, ln):
         n = _last_dim(buf) if un(buf, "zeros") is not None else None
         sl = _last_axis_slice(slot)
         if sl is None:
+            parts = ix_parts(slot)
+            if unslice(parts[0]) is not None and not any(is_sym(p_, "Ellipsis") for p_ in parts) and all(unslice(p_) is not None for p_ in parts):
+                # slices counted from the FIRST axis: not the axis that is filtered unless the data is 1-D (resample takes data of any dimension)
+                sl0 = unslice(parts[0])
+                return _Layout(n, sl0[0] if sl0[0] is not None else F.const(0), F.sym("<a step along the first axis>"), sig, buf, slot, [], n, sl0[1])
             raise Unsupported(f"the samples are not stored in a slice along the last axis of the filter input: {_short(slot)}")
         probe = S.V(R.sh.scratch())
 
@@ -751,7 +756,10 @@ def r3_resample(ctx):
     """dsp.resample, evaluated in the regimes (p', q' > 1), (q' = 1), (t given); p' = p / gcd, q' = q / gcd.  The lag bookkeeping is generic:
     whatever routine filters (lfilter on a zero-stuffed, zero-padded signal: output sample k is full-rate sample k; upfirdn: output sample k is
     full-rate sample k * down), the first retained sample must be the full-rate sample `front padding + M/2` (the FIR is symmetric about
-    M/2) and the retained samples must be q' full-rate samples apart."""
+    M/2) and the retained samples must be q' full-rate samples apart.  "Front padding", stuffing step and the padding behind the signal are read from
+    the array that is actually handed to the filter (_Layout: total length, position of sample j = off + stride j), however it was put together:
+    zeros concatenated / appended / np.pad-ed around a stuffed array, or the samples written straight into one zero buffer with room for the padding
+    (slots nz : nz + ln p : p, or nz:-nz:p - a bound the regime's facts show to be negative counts from the end)."""
     fn = ctx.src.func(DSP, "resample")
 
     def gcd_hook(node, ev):
@@ -1055,7 +1063,9 @@ RULES = [
     ("C19-R5", r5_fixtime, 11),
 ]
 LEVEL = "other"
-EXPLANATION = ("Static, decided on values and roles (functions evaluated on symbols, c19_sem.py): psd.area's general formula is the exact integral of the log-log "
+EXPLANATION = ("Static, decided on values and roles (functions evaluated on symbols, c19_sem.py; a comparison that fails on a value built with a routine the checker does not know, "
+               "or on an array the engine lost track of - written through a view / another name / an unknown method - is 'not decided', never a violation): "
+               "psd.area's general formula is the exact integral of the log-log "
                "interpolant (symbolic identity), the special case is its s -> -1 limit and is selected by a narrow window centred on the pole of the general formula, "
                "all segments/columns are accumulated from zero; psd.interp's log/exp pairing; dsp.resample's lag removal / decimation index arithmetic (first kept "
                "full-rate index = front padding + M/2 for every p/q, whatever the filter routine); psd.rescale's cumulative-curve construction; dsp.fixtime on every path "
